@@ -4,18 +4,24 @@ package c09
 // MsgEthereumTx) x gas-limit sweep, against the Lean frame/journal model.
 //
 //   op line   : tx <gasLimit> <intrinsic> <program with the gas costs measured by a tracer on an ample-gas run>
-//   impl line : <status> markers=<surviving SSTORE markers read from contract storage> kept=<precompile calls whose frame
-//               and all enclosing frames returned normally, from a traced run at the same gas limit> ref=<same|diff>
-//               where ref compares every Cosmos module store after the real run with a REFERENCE run (ample gas) of the
-//               program pruned to exactly the kept frames — "surviving effects = those of calls all of whose enclosing
-//               frames returned normally", checked byte for byte on bank, staking, distribution, crosschain, erc20, ...
-//   model line: what `runTx` of Model/C09.lean predicts from the program, the costs and the gas limit alone.
+//   impl line : <status> gas=<gas used by the root frame (traced run at the same limit)> markers=<surviving SSTORE markers
+//               read from contract storage> kept=<precompile calls whose frame and all enclosing frames returned
+//               normally> logs=<number of precompile logs in the receipt> ref=<same|diff>
+//               where ref compares every Cosmos module store (and the ERC-20 token storage) after the real run with a
+//               REFERENCE run (ample gas) of the program pruned to exactly the kept frames — "surviving effects = those
+//               of calls all of whose enclosing frames returned normally", checked byte for byte on bank, staking,
+//               distribution, crosschain, erc20, ... ; the details of a difference go into the monitor text
+//   precompile calls carry a mode: ok | fail | use:<r> (consumes resource r: a pool transaction being cancelled, a pending
+//               claim being executed; fails when an earlier KEPT call consumed it) | need:<r> (fails when r is consumed):
+//               whether such a call succeeds depends on which earlier frames the EVM kept.
+//   model line: what `runTx` of Model/C09.lean predicts from the program, the costs and the gas limit alone (the shape of
+//               every method's Run — writes outside the native action, recover(), gas meter — is looked up by the driver
+//               in the regenerated table Gen/C09.lean).
 //
 // Monitors (property stated on real state): failed tx => no Cosmos-side change at all; success => every executed
 // precompile call's effect is there (reference equality); caught failure => none of that frame's.
 
 import (
-	"bytes"
 	"encoding/json"
 	"fmt"
 	"math/big"
@@ -26,14 +32,19 @@ import (
 	"testing"
 
 	sdkmath "cosmossdk.io/math"
+	storetypes "cosmossdk.io/store/types"
 	sdk "github.com/cosmos/cosmos-sdk/types"
+	banktypes "github.com/cosmos/cosmos-sdk/x/bank/types"
 	stakingtypes "github.com/cosmos/cosmos-sdk/x/staking/types"
 	"github.com/ethereum/go-ethereum/common"
+	"github.com/ethereum/go-ethereum/core/vm"
 	evmtypes "github.com/evmos/ethermint/x/evm/types"
 
+	"github.com/functionx/fx-core/v8/contract"
 	"github.com/functionx/fx-core/v8/testutil/helpers"
 	fxtypes "github.com/functionx/fx-core/v8/types"
 	crosschaintypes "github.com/functionx/fx-core/v8/x/crosschain/types"
+	erc20types "github.com/functionx/fx-core/v8/x/erc20/types"
 	ethtypes "github.com/functionx/fx-core/v8/x/eth/types"
 	fxstakingtypes "github.com/functionx/fx-core/v8/x/staking/types"
 
@@ -41,40 +52,65 @@ import (
 	"fxverif/harness/hx"
 )
 
-const nPool = 6
+const (
+	nPool   = 6
+	nClaim  = 4    // pending claims prepared for executeClaim
+	claim0  = 7001 // event nonce of the first prepared claim
+	resTx   = 10   // resource id of pool tx k of pool i: resTx*i + k + 1
+	resClm  = 100  // resource id of claim k: resClm + k
+	ampleGL = 6_000_000
+)
 
 type env struct {
-	s       *hx.Suite
-	signer  *helpers.Signer
-	owner   *helpers.Signer // EOA with a delegation that approved every pool contract
-	sink    common.Address  // receiver of share transfers
-	pool    []common.Address
-	vals    []string
-	staking common.Address
-	cross   common.Address
-	txids   map[common.Address][]uint64 // prepared outgoing pool txs per pool contract: [cancel, increase]
-	reqGas  map[string]uint64
-	writer  map[string]bool
-	cnt     func(string)
+	s        *hx.Suite
+	signer   *helpers.Signer
+	owner    *helpers.Signer // EOA with a delegation that approved every pool contract
+	owner2   *helpers.Signer // EOA with a tiny delegation and a large allowance for every pool contract
+	direct   *helpers.Signer // EOA that calls the precompiles directly (transaction `to` = precompile)
+	sink     common.Address  // receiver of share transfers
+	pool     []common.Address
+	poolIdx  map[common.Address]int
+	vals     []string
+	staking  common.Address
+	cross    common.Address
+	wfx      common.Address   // ERC-20 face of FX (token pair of the default denom); zero if set-up failed
+	tst      common.Address   // a native ERC-20 (owner external) registered with an eth bridge alias; zero if set-up failed
+	hookTok  []common.Address // native ERC-20s whose transferFrom runs the code of hookAddr[k] (a generated program)
+	hookAddr []common.Address
+	txids    map[common.Address][]uint64 // prepared outgoing pool txs per pool contract
+	reqGas   map[string]uint64
+	writer   map[string]bool
+	cnt      func(string)
 }
 
 func poolAddr(i int) common.Address {
 	return common.BytesToAddress([]byte{0xC0, 0x9C, 0, 0, 0, 0, 0, 0, 0, 0, 0, 0, 0, 0, 0, 0, 0, 0, 0x10, byte(i + 1)})
 }
 
+func hookAddrOf(k int) common.Address {
+	return common.BytesToAddress([]byte{0xC0, 0x9C, 0, 0, 0, 0, 0, 0, 0, 0, 0, 0, 0, 0, 0, 0, 0, 0, 0x20, byte(k + 1)})
+}
+
+func hookTokOf(k int) common.Address {
+	return common.BytesToAddress([]byte{0xC0, 0x9C, 0, 0, 0, 0, 0, 0, 0, 0, 0, 0, 0, 0, 0, 0, 0, 0, 0x30, byte(k + 1)})
+}
+
+const nHook = 2
+
+func big18(n int64) sdkmath.Int { return sdkmath.NewInt(n).Mul(sdkmath.NewInt(1e18)) }
+
 func setup(t *testing.T, out *hx.Out) *env {
 	s := hx.NewSuite(t, 2)
 	e := &env{s: s, staking: fxstakingtypes.GetAddress(), cross: crosschaintypes.GetAddress(), txids: map[common.Address][]uint64{},
-		reqGas: map[string]uint64{}, writer: map[string]bool{}}
+		reqGas: map[string]uint64{}, writer: map[string]bool{}, poolIdx: map[common.Address]int{}}
 	e.signer = s.AddTestSigner(100_000)
 	e.owner = s.AddTestSigner(100_000)
+	e.owner2 = s.AddTestSigner(100_000)
+	e.direct = s.AddTestSigner(1_000_000)
 	e.sink = helpers.GenHexAddress()
 	for _, v := range s.ValAddr {
 		e.vals = append(e.vals, v.String())
 	}
-	big18 := func(n int64) sdkmath.Int { return sdkmath.NewInt(n).Mul(sdkmath.NewInt(1e18)) }
-	msgSrv := s.App.StakingKeeper
-	_ = msgSrv
 	delegate := func(who sdk.AccAddress, val sdk.ValAddress, amt sdkmath.Int) {
 		v, err := s.App.StakingKeeper.GetValidator(s.Ctx, val)
 		if err != nil {
@@ -85,21 +121,28 @@ func setup(t *testing.T, out *hx.Out) *env {
 		}
 	}
 	// crosschain: FX <-> eth bridge token
-	bridgeDenom := crosschaintypes.NewBridgeDenom(ethtypes.ModuleName, helpers.GenExternalAddr(ethtypes.ModuleName))
+	fxExternal := helpers.GenExternalAddr(ethtypes.ModuleName)
+	bridgeDenom := crosschaintypes.NewBridgeDenom(ethtypes.ModuleName, fxExternal)
 	s.App.EthKeeper.AddBridgeToken(s.Ctx, bridgeDenom, fxtypes.DefaultDenom)
 	s.App.EthKeeper.AddBridgeToken(s.Ctx, fxtypes.DefaultDenom, bridgeDenom)
 	for i := 0; i < nPool; i++ {
 		a := poolAddr(i)
 		e.pool = append(e.pool, a)
+		e.poolIdx[a] = i
 		s.MintToken(a.Bytes(), sdk.NewCoin(fxtypes.DefaultDenom, big18(1_000_000)))
 		delegate(a.Bytes(), s.ValAddr[0], big18(1000))
 		delegate(a.Bytes(), s.ValAddr[1], big18(1000))
 	}
 	delegate(e.owner.AccAddress(), s.ValAddr[0], big18(5000))
-	for _, a := range e.pool {
+	delegate(e.owner2.AccAddress(), s.ValAddr[0], big18(1))
+	delegate(e.direct.AccAddress(), s.ValAddr[0], big18(1000))
+	delegate(e.direct.AccAddress(), s.ValAddr[1], big18(1000))
+	e.poolIdx[e.direct.Address()] = nPool
+	for _, a := range append(append([]common.Address{}, e.pool...), e.direct.Address()) {
 		s.App.StakingKeeper.SetAllowance(s.Ctx, s.ValAddr[0], e.owner.AccAddress(), a.Bytes(), big18(100).BigInt())
+		s.App.StakingKeeper.SetAllowance(s.Ctx, s.ValAddr[0], e.owner2.AccAddress(), a.Bytes(), big18(100).BigInt())
 	}
-	for _, a := range e.pool {
+	for _, a := range append(append([]common.Address{}, e.pool...), e.direct.Address()) {
 		for k := 0; k < 2; k++ {
 			id, err := s.App.EthKeeper.AddToOutgoingPool(s.Ctx, a.Bytes(), helpers.GenExternalAddr(ethtypes.ModuleName),
 				sdk.NewCoin(fxtypes.DefaultDenom, sdkmath.NewInt(1000)), sdk.NewCoin(fxtypes.DefaultDenom, sdkmath.NewInt(10)))
@@ -109,6 +152,89 @@ func setup(t *testing.T, out *hx.Out) *env {
 			}
 			e.txids[a] = append(e.txids[a], id)
 		}
+	}
+	// hook tokens: externally owned native ERC-20s (registered like a governance-approved token) whose transferFrom runs a
+	// generated program in a hook contract that can itself hold stake and call the precompiles
+	for k := 0; k < nHook; k++ {
+		ha, ta := hookAddrOf(k), hookTokOf(k)
+		s.MintToken(ha.Bytes(), sdk.NewCoin(fxtypes.DefaultDenom, big18(1_000_000)))
+		delegate(ha.Bytes(), s.ValAddr[0], big18(1000))
+		delegate(ha.Bytes(), s.ValAddr[1], big18(1000))
+		s.App.StakingKeeper.SetAllowance(s.Ctx, s.ValAddr[0], e.owner.AccAddress(), ha.Bytes(), big18(100).BigInt())
+		s.App.StakingKeeper.SetAllowance(s.Ctx, s.ValAddr[0], e.owner2.AccAddress(), ha.Bytes(), big18(100).BigInt())
+		if err := evmx.Install(s.Ctx, s.App, ha, []byte{0}); err != nil {
+			out.Count("setup:hook-install-error:" + firstLine(err.Error()))
+			continue
+		}
+		if err := evmx.Install(s.Ctx, s.App, ta, tokenCode(ha)); err != nil {
+			out.Count("setup:hook-token-install-error:" + firstLine(err.Error()))
+			continue
+		}
+		base := fmt.Sprintf("hook%d", k+1)
+		alias := crosschaintypes.NewBridgeDenom(ethtypes.ModuleName, helpers.GenExternalAddr(ethtypes.ModuleName))
+		s.App.EthKeeper.AddBridgeToken(s.Ctx, alias, alias)
+		s.App.Erc20Keeper.SetAliasesDenom(s.Ctx, base, alias)
+		s.App.BankKeeper.SetDenomMetaData(s.Ctx, banktypes.Metadata{Description: "hook token", Base: base, Display: base, Name: "Hook " + base, Symbol: strings.ToUpper(base),
+			DenomUnits: []*banktypes.DenomUnit{{Denom: base, Exponent: 0, Aliases: []string{alias}}, {Denom: strings.ToUpper(base), Exponent: 18}}})
+		s.App.Erc20Keeper.AddTokenPair(s.Ctx, erc20types.NewTokenPair(ta, base, true, erc20types.OWNER_EXTERNAL))
+		e.hookTok = append(e.hookTok, ta)
+		e.hookAddr = append(e.hookAddr, ha)
+	}
+	// ERC-20 faces: WFX (token pair of the default denom) for every pool contract, spendable by the crosschain precompile
+	fip := contract.GetFIP20()
+	maxU := new(big.Int).Sub(new(big.Int).Lsh(big.NewInt(1), 255), big.NewInt(1))
+	if pair, ok := s.App.Erc20Keeper.GetTokenPair(s.Ctx, fxtypes.DefaultDenom); ok {
+		e.wfx = pair.GetERC20Contract()
+		for _, a := range append(append(append([]common.Address{}, e.pool...), e.hookAddr...), e.direct.Address()) {
+			if _, err := s.App.Erc20Keeper.ConvertCoin(s.Ctx, &erc20types.MsgConvertCoin{Coin: sdk.NewCoin(fxtypes.DefaultDenom, big18(1000)),
+				Receiver: a.Hex(), Sender: sdk.AccAddress(a.Bytes()).String()}); err != nil {
+				out.Count("setup:wfx-convert-error:" + firstLine(err.Error()))
+				e.wfx = common.Address{}
+				break
+			}
+			if _, err := s.App.EvmKeeper.ApplyContract(s.Ctx, a, e.wfx, nil, fip.ABI, "approve", e.cross, maxU); err != nil {
+				out.Count("setup:wfx-approve-error:" + firstLine(err.Error()))
+			}
+		}
+	} else {
+		out.Count("setup:no-FX-token-pair")
+	}
+	// a native ERC-20 (contract owner external) with an eth bridge alias
+	func() {
+		mod := s.App.Erc20Keeper.ModuleAddress()
+		tok, err := s.App.Erc20Keeper.DeployUpgradableToken(s.Ctx, mod, "Test token", "TST", 18)
+		if err != nil {
+			out.Count("setup:tst-deploy-error:" + firstLine(err.Error()))
+			return
+		}
+		for _, a := range append(append(append([]common.Address{}, e.pool...), e.hookAddr...), e.direct.Address()) {
+			if _, err := s.App.EvmKeeper.ApplyContract(s.Ctx, mod, tok, nil, fip.ABI, "mint", a, big18(1000).BigInt()); err != nil {
+				out.Count("setup:tst-mint-error:" + firstLine(err.Error()))
+				return
+			}
+		}
+		ext := helpers.GenExternalAddr(ethtypes.ModuleName)
+		alias := crosschaintypes.NewBridgeDenom(ethtypes.ModuleName, ext)
+		s.App.EthKeeper.AddBridgeToken(s.Ctx, alias, alias)
+		if _, err := s.App.Erc20Keeper.RegisterNativeERC20(s.Ctx, tok, alias); err != nil {
+			out.Count("setup:tst-register-error:" + firstLine(err.Error()))
+			return
+		}
+		for _, a := range append(append(append([]common.Address{}, e.pool...), e.hookAddr...), e.direct.Address()) {
+			if _, err := s.App.EvmKeeper.ApplyContract(s.Ctx, a, tok, nil, fip.ABI, "approve", e.cross, maxU); err != nil {
+				out.Count("setup:tst-approve-error:" + firstLine(err.Error()))
+			}
+		}
+		e.tst = tok
+	}()
+	// pending claims for executeClaim: FX arriving from eth for fresh receivers (the eth module holds the FX)
+	s.MintTokenToModule(ethtypes.ModuleName, sdk.NewCoin(fxtypes.DefaultDenom, big18(1000)))
+	for k := 0; k < nClaim; k++ {
+		s.App.EthKeeper.SavePendingExecuteClaim(s.Ctx, &crosschaintypes.MsgSendToFxClaim{
+			EventNonce: uint64(claim0 + k), BlockHeight: 100, TokenContract: fxExternal, Amount: sdkmath.NewInt(int64(5000 + k)),
+			Sender: helpers.GenExternalAddr(ethtypes.ModuleName), Receiver: sdk.AccAddress(helpers.GenHexAddress().Bytes()).String(),
+			BridgerAddress: sdk.AccAddress(helpers.GenHexAddress().Bytes()).String(), ChainName: ethtypes.ModuleName,
+		})
 	}
 	s.App.EthKeeper.SetLastObservedBlockHeight(s.Ctx, 1000, uint64(s.Ctx.BlockHeight()))
 	s.Commit()
@@ -130,6 +256,9 @@ func setup(t *testing.T, out *hx.Out) *env {
 			}
 		}
 	}
+	if len(e.reqGas) == 0 {
+		t.Fatal("C09: no method facts (VERIF_FACTS)")
+	}
 	return e
 }
 
@@ -144,216 +273,6 @@ func firstLine(s string) string {
 }
 
 // ---------------------------------------------------------------------------------------------------------
-// program generation
-
-type meta struct {
-	method string
-	mode   string // ok | fail
-}
-
-type program struct {
-	root  []*evmx.Node
-	addrs []common.Address // frame contracts in use (root first)
-	meta  map[int]*meta    // pre node id -> method info
-	nodes map[int]*evmx.Node
-	ctxOf map[int]common.Address // node id -> storage/caller context address of the frame executing it
-	next  int
-}
-
-func (e *env) genProgram(rng *rand.Rand) *program {
-	p := &program{meta: map[int]*meta{}, nodes: map[int]*evmx.Node{}, ctxOf: map[int]common.Address{}}
-	p.addrs = []common.Address{e.pool[0]}
-	cancelUsed = map[common.Address]bool{}
-	var gen func(depth int, ctx common.Address, static bool) []*evmx.Node
-	gen = func(depth int, ctx common.Address, static bool) []*evmx.Node {
-		n := 2 + rng.Intn(4)
-		var out []*evmx.Node
-		for i := 0; i < n; i++ {
-			p.next++
-			id := p.next
-			nd := &evmx.Node{ID: id}
-			r := rng.Intn(100)
-			switch {
-			case r < 25:
-				nd.Op, nd.Slot, nd.Val = "sstore", uint64(id), 1
-				if static && rng.Intn(4) != 0 {
-					nd = nil // mostly avoid SSTORE in static frames (it fails the frame)
-				}
-			case r < 65:
-				e.genPre(rng, nd, ctx, static)
-				p.meta[id] = &meta{method: nd.Op, mode: ""} // filled below
-				p.meta[id].method, p.meta[id].mode = lastMethod, lastMode
-				nd.Op = "pre"
-			case r < 85 && depth < 3 && len(p.addrs) < nPool:
-				nd.Op = "call"
-				nd.Kind = evmx.Kind([]int{0, 0, 0, 0, 0, 0, 0, 1, 2, 3}[rng.Intn(10)])
-				nd.To = e.pool[len(p.addrs)]
-				p.addrs = append(p.addrs, nd.To)
-				nd.Swallow = rng.Intn(2) == 0
-				if rng.Intn(3) == 0 {
-					nd.Gas = uint64(20000 + rng.Intn(300000))
-				}
-				if nd.Kind == evmx.KCall && !static && rng.Intn(4) == 0 {
-					nd.Value = big.NewInt(int64(1 + rng.Intn(1000)))
-				}
-				cctx := nd.To
-				if nd.Kind == evmx.KDelegate || nd.Kind == evmx.KCallCode {
-					cctx = ctx
-				}
-				nd.Body = gen(depth+1, cctx, static || nd.Kind == evmx.KStatic)
-			case r < 88 && (depth > 0 || rng.Intn(4) == 0):
-				nd.Op = "revert"
-			case r < 90 && (depth > 0 || rng.Intn(4) == 0):
-				nd.Op = "invalid"
-			case r < 92 && (depth > 0 || rng.Intn(4) == 0):
-				nd.Op = "stop"
-			default:
-				nd.Op, nd.Slot, nd.Val = "sstore", uint64(id), 1
-				if static {
-					nd = nil
-				}
-			}
-			if nd == nil {
-				continue
-			}
-			p.nodes[id] = nd
-			p.ctxOf[id] = ctx
-			out = append(out, nd)
-		}
-		return out
-	}
-	p.root = gen(0, e.pool[0], false)
-	return p
-}
-
-var lastMethod, lastMode string
-var cancelUsed = map[common.Address]bool{}
-
-// genPre fills a precompile call: method, calldata, kind, value, intended outcome.
-func (e *env) genPre(rng *rand.Rand, nd *evmx.Node, ctx common.Address, static bool) {
-	sabi := fxstakingtypes.GetABI()
-	cabi := crosschaintypes.GetABI()
-	methods := []string{"delegateV2", "delegateV2", "undelegateV2", "redelegateV2", "withdraw", "approveShares", "approveShares",
-		"transferShares", "transferFromShares", "crossChain", "crossChain", "cancelSendToExternal", "increaseBridgeFee", "bridgeCall", "executeClaim",
-		"delegation", "hasOracle"}
-	m := hx.Pick(rng, methods)
-	mode := "ok"
-	if rng.Intn(8) == 0 {
-		mode = "fail"
-	}
-	nd.Kind = evmx.Kind([]int{0, 0, 0, 0, 0, 0, 0, 0, 0, 1, 2, 3}[rng.Intn(12)])
-	nd.Swallow = rng.Intn(2) == 0
-	if rng.Intn(4) == 0 {
-		nd.Gas = uint64(5000 + rng.Intn(400000))
-	}
-	nd.To = e.staking
-	val := e.vals[0]
-	if mode == "fail" {
-		val = "fxvaloper1notavalidator"
-	}
-	amt := func(k int64) *big.Int { return new(big.Int).Mul(big.NewInt(k+int64(nd.ID)), big.NewInt(1e15)) }
-	if mode == "fail" && rng.Intn(2) == 0 {
-		switch m {
-		case "delegateV2", "undelegateV2", "redelegateV2", "transferShares", "transferFromShares":
-			// valid arguments that the keeper rejects (more than the caller has)
-			val = e.vals[0]
-			amt = func(k int64) *big.Int { return new(big.Int).Mul(big.NewInt(k+int64(nd.ID)), new(big.Int).Exp(big.NewInt(10), big.NewInt(27), nil)) }
-		}
-	}
-	var data []byte
-	var err error
-	value := new(big.Int)
-	switch m {
-	case "delegateV2":
-		data, err = sabi.Pack(m, val, amt(1000))
-	case "undelegateV2":
-		data, err = sabi.Pack(m, val, amt(10))
-	case "redelegateV2":
-		data, err = sabi.Pack(m, val, e.vals[1], amt(10))
-	case "withdraw":
-		data, err = sabi.Pack(m, val)
-	case "approveShares":
-		data, err = sabi.Pack(m, val, common.BigToAddress(big.NewInt(int64(0x5000+nd.ID))), amt(1))
-	case "transferShares":
-		data, err = sabi.Pack(m, val, e.sink, amt(10))
-	case "transferFromShares":
-		data, err = sabi.Pack(m, val, e.owner.Address(), e.sink, amt(10))
-	case "delegation":
-		data, err = sabi.Pack(m, val, ctx)
-	case "crossChain":
-		nd.To = e.cross
-		a, f := big.NewInt(int64(1000+nd.ID)), big.NewInt(int64(10+nd.ID))
-		value = new(big.Int).Add(a, f)
-		if mode == "fail" {
-			f = big.NewInt(1) // amount + fee != msg.value
-		}
-		data, err = cabi.Pack(m, common.Address{}, helpers.GenExternalAddr(ethtypes.ModuleName), a, f, fxtypes.MustStrToByte32(ethtypes.ModuleName), "")
-	case "cancelSendToExternal":
-		nd.To = e.cross
-		id := uint64(999999)
-		if ids := e.txids[ctx]; len(ids) > 0 && mode == "ok" && !cancelUsed[ctx] {
-			id = ids[0]
-			cancelUsed[ctx] = true // a second cancel of the same tx would depend on the fate of the first
-		} else {
-			mode = "fail"
-		}
-		data, err = cabi.Pack(m, ethtypes.ModuleName, new(big.Int).SetUint64(id))
-	case "increaseBridgeFee":
-		nd.To = e.cross
-		id := uint64(999999)
-		if ids := e.txids[ctx]; len(ids) > 1 && mode == "ok" {
-			id = ids[1]
-		} else {
-			mode = "fail"
-		}
-		value = big.NewInt(int64(5 + nd.ID))
-		data, err = cabi.Pack(m, ethtypes.ModuleName, new(big.Int).SetUint64(id), common.Address{}, value)
-	case "bridgeCall":
-		nd.To = e.cross
-		value = big.NewInt(int64(2000 + nd.ID))
-		dst := ethtypes.ModuleName
-		if mode == "fail" {
-			dst = "nochain"
-		}
-		data, err = cabi.Pack(m, dst, ctx, []common.Address{}, []*big.Int{}, helpers.GenHexAddress(), []byte{byte(nd.ID)}, big.NewInt(0), []byte{})
-	case "executeClaim":
-		nd.To = e.cross
-		mode = "fail" // no pending claim exists
-		data, err = cabi.Pack(m, ethtypes.ModuleName, big.NewInt(987654))
-	case "hasOracle":
-		nd.To = e.cross
-		chain := ethtypes.ModuleName
-		if mode == "fail" {
-			chain = "nochain"
-		}
-		data, err = cabi.Pack(m, chain, helpers.GenHexAddress())
-	}
-	if err != nil {
-		panic(fmt.Sprintf("pack %s: %v", m, err))
-	}
-	if m == "withdraw" && mode == "fail" {
-		// invalid validator string fails in UnpackInput
-	}
-	nd.Data = data
-	if nd.Kind.HasValue() && !static {
-		nd.Value = value
-	} else {
-		nd.Value = new(big.Int)
-		if value.Sign() > 0 {
-			// payable paths need msg.value: without it they fail (amount+fee != value / erc20 path)
-			switch m {
-			case "crossChain", "increaseBridgeFee":
-				mode = "fail"
-			}
-		}
-	}
-	if nd.Kind == evmx.KCallCode && static {
-		nd.Value = new(big.Int)
-	}
-	lastMethod, lastMode = m, mode
-}
-
-// ---------------------------------------------------------------------------------------------------------
 // running
 
 type runObs struct {
@@ -363,8 +282,34 @@ type runObs struct {
 	kept    []int
 	dump    map[string]string
 	logs    string
+	nPreLog int
 	tr      *evmx.Tracer
 	gasUsed uint64
+}
+
+// rootTracer: when the transaction's `to` is a precompile, the EVM calls that precompile makes run at interpreter depth 0
+// and are announced with CaptureStart/CaptureEnd again; they are recorded as child frames of the open frame instead
+type rootTracer struct {
+	*evmx.Tracer
+	open int
+}
+
+func (t *rootTracer) CaptureStart(env *vm.EVM, from, to common.Address, create bool, input []byte, gas uint64, value *big.Int) {
+	if t.open == 0 {
+		t.Tracer.CaptureStart(env, from, to, create, input, gas, value)
+	} else {
+		t.Tracer.CaptureEnter(vm.CALL, from, to, input, gas, value)
+	}
+	t.open++
+}
+
+func (t *rootTracer) CaptureEnd(output []byte, gasUsed uint64, err error) {
+	t.open--
+	if t.open == 0 {
+		t.Tracer.CaptureEnd(output, gasUsed, err)
+	} else {
+		t.Tracer.CaptureExit(output, gasUsed, err)
+	}
 }
 
 func (e *env) warm() []common.Address { return []common.Address{e.staking, e.cross} }
@@ -385,8 +330,9 @@ func statusOf(res *evmtypes.MsgEthereumTxResponse, err error) string {
 	return "fail"
 }
 
-var cosmosStores = []string{"bank", "staking", "distribution", "eth", "erc20", "gov", "slashing", "mint", "bsc", "tron", "transfer", "ibc", "crosschain"}
+var cosmosStores = []string{"bank", "staking", "distribution", "eth", "erc20", "gov", "slashing", "mint", "bsc", "tron", "transfer", "ibc", "crosschain", "feegrant", "authz"}
 
+// dumpCosmos: digest of every Cosmos module store + the EVM storage of the ERC-20 token contracts (balances, allowances)
 func (e *env) dumpCosmos(ctx sdk.Context) map[string]string {
 	res := map[string]string{}
 	keys := e.s.App.GetKVStoreKey()
@@ -396,6 +342,18 @@ func (e *env) dumpCosmos(ctx sdk.Context) map[string]string {
 			res[n] = d
 		}
 	}
+	if k, ok := keys[evmtypes.StoreKey]; ok {
+		for name, tok := range map[string]common.Address{"token:wfx": e.wfx, "token:tst": e.tst} {
+			if tok == (common.Address{}) {
+				continue
+			}
+			var sb strings.Builder
+			for _, kv := range hx.RawPrefix(ctx, k, evmtypes.AddressStoragePrefix(tok)) {
+				sb.WriteString(hx.Hex(kv[0]) + "=" + hx.Hex(kv[1]) + ";")
+			}
+			res[name] = sb.String()
+		}
+	}
 	return res
 }
 
@@ -403,6 +361,10 @@ func (e *env) dumpCosmos(ctx sdk.Context) map[string]string {
 func frameNodes(p *program, tr *evmx.Tracer) map[int]*evmx.Node {
 	res := map[int]*evmx.Node{}
 	isRoot := map[int]bool{0: true}
+	if p.direct && len(p.root) == 1 && len(tr.Frames) > 0 {
+		res[0] = p.root[0] // the root frame IS the precompile call
+		isRoot = map[int]bool{}
+	}
 	for i := 1; i < len(tr.Frames); i++ {
 		f := tr.Frames[i]
 		var list []*evmx.Node
@@ -410,6 +372,9 @@ func frameNodes(p *program, tr *evmx.Tracer) map[int]*evmx.Node {
 			list = p.root
 		} else if pn, ok := res[f.Parent]; ok && pn.Op == "call" {
 			list = pn.Body
+		} else if ok && pn.Op == "pre" && p.inner[pn.ID] != nil && f.To == p.inner[pn.ID].tokNode.To {
+			res[i] = p.inner[pn.ID].tokNode // the ERC-20 call made from inside the native action
+			continue
 		} else {
 			continue
 		}
@@ -423,16 +388,73 @@ func frameNodes(p *program, tr *evmx.Tracer) map[int]*evmx.Node {
 }
 
 func (e *env) run(pctx sdk.Context, p *program, gasLimit uint64, traced bool) *runObs {
+	return e.runWith(pctx, p, gasLimit, traced, nil)
+}
+
+// faultMeter is an SDK gas meter that never runs out but panics ONCE, at its at-th consultation (every store access
+// consults it): an injected Go panic at an arbitrary point of the transaction — inside a keeper call of a native action,
+// inside the StateDB, anywhere.  Nothing in the EVM keeper, the precompiles or the dispatchers recovers, so it must
+// reach the caller (baseapp, which drops the transaction).
+type faultMeter struct {
+	n, at int
+	fired bool
+}
+
+func (m *faultMeter) GasConsumed() storetypes.Gas        { return 0 }
+func (m *faultMeter) GasConsumedToLimit() storetypes.Gas { return 0 }
+func (m *faultMeter) GasRemaining() storetypes.Gas       { return 1 << 62 }
+func (m *faultMeter) Limit() storetypes.Gas              { return 0 }
+func (m *faultMeter) RefundGas(storetypes.Gas, string)   {}
+func (m *faultMeter) IsPastLimit() bool                  { return false }
+func (m *faultMeter) IsOutOfGas() bool                   { return false }
+func (m *faultMeter) String() string                     { return "faultMeter" }
+func (m *faultMeter) ConsumeGas(_ storetypes.Gas, d string) {
+	m.n++
+	if m.n == m.at && !m.fired {
+		m.fired = true
+		if m.at%2 == 0 {
+			panic(storetypes.ErrorOutOfGas{Descriptor: "injected fault at " + d})
+		}
+		panic("injected fault at " + d)
+	}
+}
+
+// runWith: fm != nil runs the transaction under a fault meter; a panic that reaches us is reported as status "panic"
+// (the state of such a run is never looked at: the transaction is dropped)
+func (e *env) runWith(pctx sdk.Context, p *program, gasLimit uint64, traced bool, fm *faultMeter) (o *runObs) {
 	cctx, _ := pctx.CacheContext()
-	tx, err := evmx.SignedTx(cctx, e.s.App, e.signer, p.addrs[0], nil, nil, gasLimit, e.warm())
+	o = &runObs{}
+	if fm != nil {
+		cctx = cctx.WithGasMeter(fm)
+		defer func() {
+			if r := recover(); r != nil {
+				if !fm.fired {
+					panic(r)
+				}
+				o = &runObs{status: "panic"}
+			}
+		}()
+	}
+	if p.direct && len(p.root) == 0 { // reference run of a direct call that was not kept: no transaction at all
+		o.status = "ok"
+		o.dump = e.dumpCosmos(cctx)
+		return o
+	}
+	var tx *evmtypes.MsgEthereumTx
+	var err error
+	if p.direct {
+		nd := p.root[0]
+		tx, err = evmx.SignedTx(cctx, e.s.App, e.direct, nd.To, nd.Value, nd.Data, gasLimit, nil)
+	} else {
+		tx, err = evmx.SignedTx(cctx, e.s.App, e.signer, p.addrs[0], nil, nil, gasLimit, e.warm())
+	}
 	if err != nil {
 		panic(err)
 	}
-	o := &runObs{}
 	var res *evmtypes.MsgEthereumTxResponse
 	if traced {
 		o.tr = evmx.NewTracer()
-		res, err = evmx.SendTraced(cctx, e.s.App, tx, o.tr)
+		res, err = evmx.SendTraced(cctx, e.s.App, tx, &rootTracer{Tracer: o.tr})
 	} else {
 		res, err = evmx.Send(cctx, e.s.App, tx)
 	}
@@ -443,6 +465,9 @@ func (e *env) run(pctx sdk.Context, p *program, gasLimit uint64, traced bool) *r
 		var sb strings.Builder
 		for _, l := range res.Logs {
 			sb.WriteString(l.Address + ":" + strings.Join(l.Topics, ",") + ":" + common.Bytes2Hex(l.Data) + ";")
+			if a := common.HexToAddress(l.Address); a == e.staking || a == e.cross {
+				o.nPreLog++
+			}
 		}
 		o.logs = sb.String()
 	}
@@ -474,9 +499,10 @@ func (e *env) run(pctx sdk.Context, p *program, gasLimit uint64, traced bool) *r
 }
 
 // prune returns the program restricted to frames that were kept in the traced run.
-func prune(p *program, tr *evmx.Tracer) []*evmx.Node {
+func prune(p *program, tr *evmx.Tracer) *program {
+	q := &program{addrs: p.addrs, meta: p.meta, nodes: p.nodes, ctxOf: p.ctxOf, inner: map[int]*inner{}, direct: p.direct}
 	if len(tr.Frames) == 0 || !tr.Kept(0) {
-		return nil
+		return q
 	}
 	fn := frameNodes(p, tr)
 	keptNode := map[int]bool{}
@@ -499,6 +525,13 @@ func prune(p *program, tr *evmx.Tracer) []*evmx.Node {
 				if n.Op == "call" {
 					c.Body = cp(n.Body)
 				}
+				if in := p.inner[n.ID]; n.Op == "pre" && in != nil {
+					hn := *in.hookNode
+					hn.Body = cp(in.hookNode.Body)
+					tn := *in.tokNode
+					tn.Body = []*evmx.Node{&hn}
+					q.inner[n.ID] = &inner{k: in.k, tokNode: &tn, hookNode: &hn}
+				}
 				out = append(out, &c)
 				continue
 			}
@@ -510,7 +543,32 @@ func prune(p *program, tr *evmx.Tracer) []*evmx.Node {
 		}
 		return out
 	}
-	return cp(p.root)
+	q.root = cp(p.root)
+	return q
+}
+
+// install puts the program's contracts in place: the root tree and the hook contracts of the hook tokens in use
+func (e *env) install(ctx sdk.Context, p *program) error {
+	if !p.direct {
+		if err := evmx.InstallTree(ctx, e.s.App, p.addrs[0], p.root); err != nil {
+			return err
+		}
+	}
+	var err error
+	var walk func(list []*evmx.Node)
+	walk = func(list []*evmx.Node) {
+		for _, n := range list {
+			if n.Op == "call" {
+				walk(n.Body)
+			}
+			if in := p.inner[n.ID]; n.Op == "pre" && in != nil && err == nil {
+				err = evmx.InstallTree(ctx, e.s.App, in.hookNode.To, in.hookNode.Body)
+				walk(in.hookNode.Body)
+			}
+		}
+	}
+	walk(p.root)
+	return err
 }
 
 // costs measured on an ample-gas traced run -> program text for the model
@@ -608,6 +666,10 @@ func (e *env) progText(p *program, tr *evmx.Tracer) (string, uint64) {
 						an += 9000
 					}
 				}
+				synthetic := n.PcCall == tokenCallPc && len(n.OpPcs) == 13 && n.PcStart == 0
+				if synthetic {
+					an = 5*3 + 3 + 2 + 2600 // the token's fixed code: five PUSH1, PUSH20, GAS, CALL to the cold hook contract
+				}
 				callc, ok := sum(n.PcStart, n.PcCall)
 				ci, hasFrame := frameOf[n.ID]
 				if ok && hasFrame && !bad[key{frame, uint64(n.PcCall)}] {
@@ -628,7 +690,12 @@ func (e *env) progText(p *program, tr *evmx.Tracer) (string, uint64) {
 				if n.Swallow {
 					pOk, pFail, sw = evmx.PostSwallow, evmx.PostSwallow, 1
 				}
-				hdr := fmt.Sprintf("%d %d %d %s %d %d %d %d", callc, n.RequestedGas(), stip, n.Kind, xfer, sw, pOk, pFail)
+				funded := 1
+				if hasVal && n.Value.BitLen() > 90 {
+					funded = 0 // CanTransfer fails: evm.Call returns at once, all the gas handed over comes back
+					e.cnt("value-call-the-caller-cannot-fund:" + n.Op)
+				}
+				hdr := fmt.Sprintf("%d %d %d %s %d %d %d %d %d", callc, n.RequestedGas(), stip, n.Kind, xfer, funded, sw, pOk, pFail)
 				if n.Op == "call" {
 					if !hasFrame {
 						ci = -1
@@ -640,7 +707,25 @@ func (e *env) progText(p *program, tr *evmx.Tracer) (string, uint64) {
 					if e.writer[mt.method] {
 						w = 1
 					}
-					parts = append(parts, fmt.Sprintf("P %d %s %d %s %d %s", n.ID, hdr, e.reqGas[mt.method], mt.mode, w, mt.method))
+					// gas the precompile used on top of RequiredGas when it succeeded in the ample run (0 for a flat-priced
+					// method; measured, so that a method that meters its native work is predicted with its real price)
+					extra := uint64(0)
+					if hasFrame && tr.Frames[ci].Err == "" && tr.Frames[ci].GasUsed > e.reqGas[mt.method] {
+						extra = tr.Frames[ci].GasUsed - e.reqGas[mt.method]
+						e.cnt("cost:precompile-used-more-than-RequiredGas:" + mt.method)
+					}
+					// the EVM call made from inside the native action: own gas allowance, token program = CALL hook; return
+					innerTxt := "-"
+					if in := p.inner[n.ID]; in != nil {
+						g := uint64(30_000_000)
+						hf := -1
+						if ti, ok := frameOf[in.tokNode.ID]; ok {
+							g = tr.Frames[ti].Gas
+							hf = ti
+						}
+						innerTxt = fmt.Sprintf("[ %d %s T 18 ]", g, emit(in.tokNode.Body, hf))
+					}
+					parts = append(parts, fmt.Sprintf("P %d %s %d %s %d %s %d %s %s", n.ID, hdr, e.reqGas[mt.method], mt.mode, w, mt.method, extra, mt.logs, innerTxt))
 				}
 			}
 		}
@@ -664,75 +749,176 @@ func ints(xs []int) string {
 	return strings.Join(ss, ",")
 }
 
+// gasPoints chooses the gas limits of one program: below/at/above intrinsic, ample, thresholds around every executed
+// opcode of the ample run, limits that leave a precompile call RequiredGas + d for d from -1 upward (cut-offs inside the
+// native action), and random points.
+func (e *env) gasPoints(rng *rand.Rand, p *program, amp *runObs, intrinsic uint64) []uint64 {
+	pts := map[uint64]bool{ampleGL: true, intrinsic: true, intrinsic + 1: true}
+	if intrinsic > 0 {
+		pts[intrinsic-1] = true
+	}
+	var cuts []uint64
+	fnAmp := frameNodes(p, amp.tr)
+	underPre := func(i int) bool { // frame i runs inside a precompile call (on the gas allowance of an ERC-20 call)
+		for j := i; j > 0; j = amp.tr.Frames[j].Parent {
+			if n, ok := fnAmp[amp.tr.Frames[j].Parent]; ok && n.Op == "pre" {
+				return true
+			}
+		}
+		return false
+	}
+	for _, op := range amp.tr.Ops {
+		if _, mapped := fnAmp[op.Frame]; (mapped || op.Frame == 0) && op.Gas <= ampleGL && !underPre(op.Frame) {
+			// (frames opened inside a precompile — ERC-20 calls — run on their own gas allowance: not thresholds of the tx)
+			cuts = append(cuts, ampleGL-op.Gas) // includes intrinsic; exact for depth 1, approximate (63/64) deeper
+		}
+	}
+	nCut := hx.N(12, 60)
+	for i := 0; i < nCut && len(cuts) > 0; i++ {
+		c := cuts[rng.Intn(len(cuts))]
+		switch rng.Intn(4) {
+		case 0:
+			pts[c] = true
+		case 1:
+			pts[c+1] = true
+		case 2:
+			pts[c+c/63+uint64(rng.Intn(3))] = true
+		default:
+			pts[c+uint64(rng.Intn(3000))] = true
+		}
+	}
+	// inside the native action: the precompile frame gets RequiredGas + d
+	fn := frameNodes(p, amp.tr)
+	var pre []int
+	for i, n := range fn {
+		if n.Op == "pre" && n.Gas == 0 && !underPre(i) {
+			pre = append(pre, i)
+		}
+	}
+	sort.Ints(pre)
+	nIn := hx.N(8, 40)
+	for k := 0; k < nIn && len(pre) > 0; k++ {
+		i := pre[rng.Intn(len(pre))]
+		f := amp.tr.Frames[i]
+		req := e.reqGas[p.meta[fn[i].ID].method]
+		depth := 0
+		for j := i; j > 0; j = amp.tr.Frames[j].Parent {
+			depth++
+		}
+		d := []int64{-1, 0, 1, int64(rng.Intn(200)), int64(rng.Intn(3000)), int64(rng.Intn(12000)), int64(rng.Intn(40000)), int64(rng.Intn(90000))}[rng.Intn(8)]
+		want := int64(req) + d
+		if want < 0 || uint64(want) >= f.Gas {
+			continue
+		}
+		drop := f.Gas - uint64(want) // how much less the frame must get
+		for j := 0; j < depth; j++ {
+			drop = drop + drop/63
+		}
+		if drop+uint64(depth)+2 >= ampleGL-intrinsic {
+			continue
+		}
+		g := ampleGL - drop
+		pts[g] = true
+		e.cnt("gas-point:inside-native-action")
+		if d <= 1 {
+			for x := uint64(1); x <= uint64(depth)+1; x++ {
+				pts[g-x] = true
+				pts[g+x] = true
+			}
+		}
+	}
+	total := amp.gasUsed + 50000
+	nRand := hx.N(8, 40)
+	for i := 0; i < nRand; i++ {
+		pts[intrinsic+uint64(rng.Int63n(int64(total)))] = true
+	}
+	var gl []uint64
+	for g := range pts {
+		gl = append(gl, g)
+	}
+	sort.Slice(gl, func(i, j int) bool { return gl[i] < gl[j] })
+	return gl
+}
+
 func TestC09(t *testing.T) {
 	seed := hx.Seed()
 	rng := rand.New(rand.NewSource(seed))
 	out := hx.NewOut()
-	defer out.Close("correspondence: random call trees (<=6 contracts, depth<=3; SSTORE markers, CALL/STATICCALL/DELEGATECALL/CALLCODE to generated contracts and to both precompiles, all 12 state-changing methods + 2 views, valid and failing arguments, value transfers, gas caps, swallow/bubble, REVERT/INVALID/STOP) x gas limits from below intrinsic to ample (random + per-node threshold points; thorough: dense sweep), real signed MsgEthereumTx; model predicts status/markers/kept calls from tracer-measured costs; reference run = pruned program. non-trivial = distinct (status, #kept, #dropped executed calls, methods)")
+	defer func() {
+		out.Close("correspondence: random call trees (<=6 contracts, depth<=3; SSTORE markers, CALL/STATICCALL/DELEGATECALL/CALLCODE to generated contracts and to both precompiles, all 12 state-changing methods + 2 views, valid and failing arguments (early and late failures), origin-token and ERC-20 paths of crossChain/bridgeCall/increaseBridgeFee, executeClaim of pending claims, resources consumed by kept calls only, value transfers, gas caps around RequiredGas, swallow/bubble, REVERT/INVALID/STOP) x gas limits from below intrinsic to ample (random + per-opcode thresholds + cut-offs inside the native action; thorough: dense sweep), real signed MsgEthereumTx; model predicts status/gas/markers/kept calls/logs from tracer-measured costs; reference run = pruned program. non-trivial = distinct (status, #kept, #dropped executed calls, methods)")
+		// the shared writer drops lines silently after an I/O error (disk full, …): a truncated op file would read as a
+		// disagreement between model and implementation
+		for _, f := range []string{"ops.txt", "impl.txt"} {
+			if n := len(hx.ReadLines(hx.OutDir() + "/" + f)); n != out.Stats.Evaluations {
+				t.Errorf("C09 harness: %s has %d lines, %d were emitted — output truncated by an I/O error of the environment, re-run", f, n, out.Stats.Evaluations)
+			}
+		}
+	}()
 	e := setup(t, out)
 	e.cnt = out.Count
-	const ample = 6_000_000
 	nProg := hx.N(400, 2000)
 	debug := os.Getenv("VERIF_DEBUG") != ""
-	for pi := 0; pi < nProg; pi++ {
+	dir := e.directed(rand.New(rand.NewSource(seed ^ 0x5eed)))
+	dir = append(dir, e.directCalls(rand.New(rand.NewSource(seed^0xd1ec)))...)
+	for pi := 0; pi < nProg+len(dir); pi++ {
 		out.Reset()
-		p := e.genProgram(rng)
+		var p *program
+		if pi < len(dir) {
+			p = dir[pi]
+		} else {
+			p = e.genProgram(rng)
+		}
 		pctx, _ := e.s.Ctx.CacheContext()
-		if err := evmx.InstallTree(pctx, e.s.App, p.addrs[0], p.root); err != nil {
+		if err := e.install(pctx, p); err != nil {
 			t.Fatal(err)
 		}
-		amp := e.run(pctx, p, ample, true)
+		amp := e.run(pctx, p, ampleGL, true)
 		text, intrinsic := e.progText(p, amp.tr)
 		for i, n := range frameNodes(p, amp.tr) {
 			if n.Op == "pre" {
-				out.Count(fmt.Sprintf("ample:%s:%s:%s:%s", p.meta[n.ID].method, p.meta[n.ID].mode, n.Kind, firstLine(amp.tr.Frames[i].Err)))
+				out.Count(fmt.Sprintf("ample:%s:%s:%s:%s", p.meta[n.ID].variant, strings.SplitN(p.meta[n.ID].mode, ":", 2)[0], n.Kind, firstLine(amp.tr.Frames[i].Err)))
+			}
+		}
+		for i, n := range frameNodes(p, amp.tr) {
+			if n.Op == "pre" {
+				for j := amp.tr.Frames[i].Parent; j > 0; j = amp.tr.Frames[j].Parent {
+					if q, ok := frameNodes(p, amp.tr)[j]; ok && q.Op == "pre" {
+						out.Count("nested:precompile-call-inside-the-native-action-of:" + p.meta[q.ID].method + ":" + p.meta[n.ID].method)
+					}
+				}
+			}
+		}
+		if debug && p.direct {
+			fn := frameNodes(p, amp.tr)
+			for i, f := range amp.tr.Frames {
+				id := -1
+				if n, ok := fn[i]; ok {
+					id = n.ID
+				}
+				fmt.Printf("  frame %d parent %d to %s callpc %d err %q done %v -> node %d\n", i, f.Parent, f.To.Hex()[:10], f.CallPc, f.Err, f.Done, id)
 			}
 		}
 		if debug {
 			fmt.Printf("prog %d: %s\n  ample: %s used=%d vmerr=%q frames=%d\n", pi, text, amp.status, amp.gasUsed, amp.vmErr, len(amp.tr.Frames))
 		}
-		// gas points
-		pts := map[uint64]bool{ample: true, intrinsic: true, intrinsic + 1: true}
-		if intrinsic > 0 {
-			pts[intrinsic-1] = true
+		gl := e.gasPoints(rng, p, amp, intrinsic)
+		opw := "tx"
+		if p.direct {
+			opw = "direct"
+			gl = e.directGasPoints(rng, p, intrinsic)
 		}
-		// thresholds: gas consumed up to each op of the ample run (root-relative), +-1 and 64/63 scaled
-		var cuts []uint64
-		for _, op := range amp.tr.Ops {
-			used := ample - op.Gas // includes intrinsic; only exact for depth 1, approximate (63/64) deeper
-			cuts = append(cuts, used)
-		}
-		nCut := hx.N(14, 60)
-		for i := 0; i < nCut && len(cuts) > 0; i++ {
-			c := cuts[rng.Intn(len(cuts))]
-			switch rng.Intn(4) {
-			case 0:
-				pts[c] = true
-			case 1:
-				pts[c+1] = true
-			case 2:
-				pts[c+c/63+uint64(rng.Intn(3))] = true
-			default:
-				pts[c+uint64(rng.Intn(3000))] = true
-			}
-		}
-		total := amp.gasUsed + 50000
-		nRand := hx.N(10, 40)
-		for i := 0; i < nRand; i++ {
-			pts[intrinsic+uint64(rng.Int63n(int64(total)))] = true
-		}
-		var gl []uint64
-		for g := range pts {
-			gl = append(gl, g)
-		}
-		sort.Slice(gl, func(i, j int) bool { return gl[i] < gl[j] })
 		refCache := map[string]*runObs{}
 		before := e.dumpCosmos(pctx)
+		nFault := hx.N(3, 10)
+		if pi < len(dir) {
+			nFault = hx.N(8, 20)
+		}
+		e.faults(t, out, rng, p, pctx, before, refCache, nFault, fmt.Sprintf("%s %d %d %s", opw, ampleGL, intrinsic, text))
 		for _, g := range gl {
 			real := e.run(pctx, p, g, false)
 			obs := real.status
 			if real.status == "rejected" || strings.HasPrefix(real.status, "error") {
-				out.Emit(fmt.Sprintf("tx %d %d %s", g, intrinsic, text), obs)
+				out.Emit(fmt.Sprintf("%s %d %d %s", opw, g, intrinsic, text), obs)
 				out.Count("status:" + real.status)
 				if ch := hx.DiffDump(before, real.dump); len(ch) > 0 {
 					out.Violate(fmt.Sprintf("rejected transaction changed Cosmos stores %v", ch))
@@ -744,73 +930,205 @@ func TestC09(t *testing.T) {
 				out.Violate(fmt.Sprintf("traced and untraced runs of the same signed tx differ: %s/%s markers %s/%s stores %v", real.status, trc.status, ints(real.markers), ints(trc.markers), hx.DiffDump(trc.dump, real.dump)))
 			}
 			// reference: program pruned to the kept frames, ample gas
-			pr := prune(p, trc.tr)
-			key := fmt.Sprint(trc.kept, "|", ints(real.markers), "|", len(pr))
-			var keptFrames []string
 			fn := frameNodes(p, trc.tr)
-			for i, n := range fn {
-				if trc.tr.Kept(i) {
-					keptFrames = append(keptFrames, fmt.Sprint(n.ID))
-				}
+			refs := e.reference(t, p, real, trc, refCache)
+			rootUsed := uint64(0)
+			if len(trc.tr.Frames) > 0 {
+				rootUsed = trc.tr.Frames[0].GasUsed
 			}
-			sort.Strings(keptFrames)
-			key += strings.Join(keptFrames, ",")
-			ref, ok := refCache[key]
-			if !ok {
-				rctx, _ := e.s.Ctx.CacheContext()
-				if err := evmx.InstallTree(rctx, e.s.App, p.addrs[0], pr); err != nil {
-					t.Fatal(err)
-				}
-				rp := &program{root: pr, addrs: p.addrs, meta: p.meta, nodes: p.nodes, ctxOf: p.ctxOf}
-				ref = e.run(rctx, rp, ample, false)
-				refCache[key] = ref
+			obs = fmt.Sprintf("%s gas=%d markers=%s kept=%s logs=%d ref=%s", real.status, rootUsed, ints(real.markers), ints(trc.kept), real.nPreLog, strings.SplitN(refs, ":", 2)[0])
+			out.Emit(fmt.Sprintf("%s %d %d %s", opw, g, intrinsic, text), obs)
+			if p.direct {
+				out.Count("direct-call:" + p.meta[p.root[0].ID].variant + ":" + real.status)
 			}
-			refs := "same"
-			if ch := hx.DiffDump(ref.dump, real.dump); len(ch) > 0 {
-				refs = "diff:" + strings.Join(ch, ",")
-			} else if ref.logs != real.logs {
-				refs = "diff:logs"
-			} else if ints(ref.markers) != ints(real.markers) {
-				refs = "diff:markers"
-			}
-			if real.status == "ok" && ref.status != "ok" {
-				refs = "diff:reference-run-" + ref.status
-			}
-			obs = fmt.Sprintf("%s markers=%s kept=%s ref=%s", real.status, ints(real.markers), ints(trc.kept), refs)
-			out.Emit(fmt.Sprintf("tx %d %d %s", g, intrinsic, text), obs)
 			// ---- monitors
-			executed, dropped := 0, 0
+			dropped := 0
 			var dm []string
 			for i, n := range fn {
-				if n.Op == "pre" && trc.tr.Frames[i].Err == "" {
-					executed++
+				if n.Op != "pre" {
+					continue
+				}
+				if trc.tr.Frames[i].Err == "" {
 					if !trc.tr.Kept(i) {
 						dropped++
 						dm = append(dm, p.meta[n.ID].method)
 					}
+				} else if trc.tr.Frames[i].Gas >= e.reqGas[p.meta[n.ID].method] && e.writer[p.meta[n.ID].method] && n.Kind == evmx.KCall {
+					out.Count("failed-after-RequiredGas:" + p.meta[n.ID].variant + ":" + strings.SplitN(p.meta[n.ID].mode, ":", 2)[0])
 				}
 			}
 			sort.Strings(dm)
 			out.Count("status:" + real.status)
 			out.Nontrivial(fmt.Sprintf("%s|kept=%d|dropped=%d|%s", real.status, len(trc.kept), dropped, strings.Join(dm, ",")))
 			for _, id := range trc.kept {
-				out.Count("kept:" + p.meta[id].method)
+				out.Count("kept:" + p.meta[id].variant)
 			}
 			for _, m := range dm {
 				out.Count("undone:" + m)
 			}
 			if real.status != "ok" {
 				if ch := hx.DiffDump(before, real.dump); len(ch) > 0 {
-					out.Violate(fmt.Sprintf("failed transaction (%s) left Cosmos-side effects in %v; successful-then-undone precompile calls: %v", real.status, ch, dm))
+					out.Violate(fmt.Sprintf("failed transaction (%s) left Cosmos-side effects in %v; successful-then-undone precompile calls: %v; precompile calls that failed after paying RequiredGas: %v", real.status, ch, dm, failedInside(p, fn, trc.tr, e)))
 				}
 				if real.logs != "" {
 					out.Violate("failed transaction kept logs")
 				}
 			}
+			// success half, stated positively: a state-changing call that the EVM kept must have left its Cosmos-side effect
+			// (the reference run repeats the same code, so equality with it cannot see an effect that is never written)
+			if real.status == "ok" {
+				changed := map[string]bool{}
+				for _, c := range hx.DiffDump(before, real.dump) {
+					changed[c] = true
+				}
+				for _, id := range trc.kept {
+					if st, ok := effectStore[p.meta[id].method]; ok && !changed[st] {
+						out.Violate(fmt.Sprintf("kept precompile call left no Cosmos-side effect: %s returned normally in a frame the EVM kept, the transaction succeeded, but the %s store is unchanged", p.meta[id].variant, st))
+					}
+				}
+			}
+			// views: a transaction in which no value moved and every precompile call the EVM kept belongs to a method that
+			// declares itself read-only must leave every Cosmos store as it was
+			if real.status == "ok" {
+				touched, views := false, []string{}
+				for i, n := range fn {
+					if !trc.tr.Kept(i) {
+						continue
+					}
+					if n.Kind.HasValue() && n.Value != nil && n.Value.Sign() > 0 {
+						touched = true
+					}
+					if n.Op == "pre" {
+						if e.writer[p.meta[n.ID].method] {
+							touched = true
+						} else {
+							views = append(views, p.meta[n.ID].method)
+						}
+					}
+				}
+				if ch := hx.DiffDump(before, real.dump); !touched && len(views) > 0 && len(ch) > 0 {
+					sort.Strings(views)
+					out.Violate(fmt.Sprintf("read-only precompile methods changed Cosmos stores %v: the transaction kept only calls of %v and moved no value", ch, views))
+				}
+				if !touched && len(views) > 0 {
+					out.Count("views-only-transaction")
+				}
+			}
 			if refs != "same" {
-				out.Violate(fmt.Sprintf("Cosmos state after the transaction differs from the effects of exactly the kept precompile calls (%s); status=%s kept=%v undone=%v", refs, real.status, trc.kept, dm))
+				out.Violate(fmt.Sprintf("Cosmos state after the transaction differs from the effects of exactly the kept precompile calls (%s); status=%s kept=%v undone=%v; precompile calls that failed after paying RequiredGas: %v", refs, real.status, trc.kept, dm, failedInside(p, fn, trc.tr, e)))
 			}
 		}
 	}
-	_ = bytes.Equal
+}
+
+// the module store every successful call of a state-changing method changes
+var effectStore = map[string]string{"delegateV2": "staking", "undelegateV2": "staking", "redelegateV2": "staking", "withdraw": "distribution",
+	"approveShares": "staking", "transferShares": "staking", "transferFromShares": "staking", "crossChain": "eth", "cancelSendToExternal": "eth",
+	"increaseBridgeFee": "eth", "bridgeCall": "eth", "executeClaim": "eth"}
+
+// reference compares a real run with the REFERENCE run (ample gas, no faults) of the program pruned to exactly the frames
+// the traced twin of the real run kept: "same" or "diff:<what>"
+func (e *env) reference(t *testing.T, p *program, real, trc *runObs, refCache map[string]*runObs) string {
+	pr := prune(p, trc.tr)
+	key := fmt.Sprint(trc.kept, "|", ints(real.markers), "|", len(pr.root))
+	var keptFrames []string
+	for i, n := range frameNodes(p, trc.tr) {
+		if trc.tr.Kept(i) {
+			keptFrames = append(keptFrames, fmt.Sprint(n.ID))
+		}
+	}
+	sort.Strings(keptFrames)
+	key += strings.Join(keptFrames, ",")
+	ref, ok := refCache[key]
+	if !ok {
+		rctx, _ := e.s.Ctx.CacheContext()
+		if err := e.install(rctx, pr); err != nil {
+			t.Fatal(err)
+		}
+		ref = e.run(rctx, pr, ampleGL, false)
+		refCache[key] = ref
+	}
+	refs := "same"
+	if ch := hx.DiffDump(ref.dump, real.dump); len(ch) > 0 {
+		refs = "diff:" + strings.Join(ch, ",")
+	} else if ref.logs != real.logs {
+		refs = "diff:logs"
+	} else if ints(ref.markers) != ints(real.markers) {
+		refs = "diff:markers"
+	}
+	if real.status == "ok" && ref.status != "ok" {
+		refs = "diff:reference-run-" + ref.status
+	}
+	return refs
+}
+
+// faults: the program at ample gas with a Go panic injected at random store accesses.  Either the panic reaches the
+// caller (the transaction is dropped as a whole) or — if something recovered it — the transaction must still be
+// all-or-nothing: failed => no Cosmos-side change, succeeded => exactly the effects of the kept frames.
+func (e *env) faults(t *testing.T, out *hx.Out, rng *rand.Rand, p *program, pctx sdk.Context, before map[string]string, refCache map[string]*runObs, n int, opLine string) {
+	probe := &faultMeter{at: -1}
+	if o := e.runWith(pctx, p, ampleGL, false, probe); o.status == "panic" || probe.n == 0 {
+		return
+	}
+	for k := 0; k < n; k++ {
+		at := 1 + rng.Intn(probe.n)
+		fm := &faultMeter{at: at}
+		real := e.runWith(pctx, p, ampleGL, false, fm)
+		switch {
+		case !fm.fired:
+			out.Count("fault:not-reached")
+		case real.status == "panic":
+			out.Count("fault:panic-reached-the-caller(transaction dropped)")
+		default:
+			out.Count("fault:recovered-inside:" + real.status)
+			if real.status != "ok" {
+				if ch := hx.DiffDump(before, real.dump); len(ch) > 0 {
+					out.ViolateWith(fmt.Sprintf("a panic injected at store access %d was recovered inside the transaction, which then failed (%s) and left Cosmos-side effects in %v", at, real.status, ch),
+						[]string{"reset", opLine, fmt.Sprintf("# fault: Go panic at the %d-th store access of this transaction (VERIF_SEED reproduces it)", at)})
+				}
+				continue
+			}
+			trc := e.runWith(pctx, p, ampleGL, true, &faultMeter{at: at})
+			if trc.status == "panic" {
+				continue
+			}
+			if refs := e.reference(t, p, real, trc, refCache); refs != "same" {
+				out.ViolateWith(fmt.Sprintf("a panic injected at store access %d was recovered inside the transaction, which succeeded with a Cosmos state that differs from the effects of exactly the kept precompile calls (%s)", at, refs),
+					[]string{"reset", opLine, fmt.Sprintf("# fault: Go panic at the %d-th store access of this transaction (VERIF_SEED reproduces it)", at)})
+			}
+		}
+	}
+}
+
+// directGasPoints: around the intrinsic gas, around intrinsic + RequiredGas, ample, a few random
+func (e *env) directGasPoints(rng *rand.Rand, p *program, intrinsic uint64) []uint64 {
+	req := e.reqGas[p.meta[p.root[0].ID].method]
+	pts := map[uint64]bool{ampleGL: true, intrinsic: true, intrinsic + 1: true, intrinsic + req: true, intrinsic + req + 1: true,
+		intrinsic + req + uint64(rng.Intn(300)): true, intrinsic + req + uint64(rng.Intn(20000)): true, intrinsic + req + uint64(rng.Intn(90000)): true,
+		intrinsic + uint64(rng.Intn(int(req)+1)): true}
+	if intrinsic > 0 {
+		pts[intrinsic-1] = true
+	}
+	if req > 0 {
+		pts[intrinsic+req-1] = true
+	}
+	var gl []uint64
+	for g := range pts {
+		gl = append(gl, g)
+	}
+	sort.Slice(gl, func(i, j int) bool { return gl[i] < gl[j] })
+	return gl
+}
+
+// failedInside lists the methods of precompile calls that got at least RequiredGas and still failed (the native action
+// itself failed or was cut short)
+func failedInside(p *program, fn map[int]*evmx.Node, tr *evmx.Tracer, e *env) []string {
+	var res []string
+	for i, n := range fn {
+		if n.Op == "pre" && tr.Frames[i].Err != "" && tr.Frames[i].Gas >= e.reqGas[p.meta[n.ID].method] {
+			res = append(res, p.meta[n.ID].method+"("+firstLine(tr.Frames[i].Err)+")")
+		}
+	}
+	sort.Strings(res)
+	return res
 }
